@@ -79,6 +79,7 @@ func (p c19) Run(c *core.Ctx, idx int) {
 	if idx%5 == 4 {
 		o.Types = []string{"string", "enumeration", "empty", "bits", "identityref", "binary", "boolean", "uint64", "int64", "decimal64"}
 	}
+	o.UnionWrapStrings = idx%7 == 6 // the white-space family: strings reached through unions, and unions inside unions, keep their white space too
 	s := dp.GenSchema(r, o)
 	if idx%7 == 5 {
 		// a namespace URI is an attribute value like any other
